@@ -215,6 +215,20 @@ def judge_c06(case, o, r):
         fd_ok = all(abs(o["popt"][k]) * jn[k] >= 1e-4 * yn for k in range(m))
         if not fd_ok:
             PARTIAL["covariance-not-judged:parameter-near-zero"] += 1
+        # The mirror image: a parameter FAR from zero on the scale on which the model varies with
+        # it (a peak position 1e4 widths away from 0).  MINPACK's step 1.5e-8*|p_k| is then not
+        # small against that scale; column k of scipy's forward-difference Jacobian carries the
+        # relative truncation error delta_k = |f(p+h) - 2f(p) + f(p-h)| / |f(p+h) - f(p-h)|
+        # (measured here with the documented closed form of the model, in the metric 1/s_i), and
+        # (J^T W J)^-1 inherits about 2*sqrt(kappa)*delta of it.  Where that alone uses up a third
+        # of the tolerance the covariance clause says nothing about qexpy: not judged (counted).
+        if fd_ok and not fails:
+            coarse = fd_coarseness(case, o["popt"], r)
+            _margin("non-poly 2*sqrt(kappa)*delta of scipy's forward-difference Jacobian",
+                    min(coarse * 2 * math.sqrt(kappa), 1.0))
+            if not coarse * 2 * math.sqrt(kappa) <= 0.3 * NL_COV_REL:
+                fd_ok = False
+                PARTIAL["covariance-not-judged:scipy-forward-difference-step-too-coarse"] += 1
         if not fails and fd_ok:
             for i in range(m):
                 for j in range(m):
@@ -231,6 +245,35 @@ def judge_c06(case, o, r):
                     break
     # the reported uncertainties are the square roots of the diagonal
     return fails, False
+
+
+def fd_coarseness(case, popt, r):
+    """largest relative truncation error of a column of the forward-difference Jacobian that
+    scipy.optimize.curve_fit (MINPACK, step sqrt(eps)*|p_k|) builds at popt; inf when it cannot be
+    evaluated"""
+    try:
+        f = G.ref_fn(case)
+        sel = r["sel"]
+        xs = [case["x"][i] for i in sel]
+        sw = [1.0 / (fb(v)[0] or 1.0) for v in r["s"]]
+        if len(sw) != len(xs):
+            sw = [1.0] * len(xs)
+        worst = 0.0
+        for k, pk in enumerate(popt):
+            h = 1.4901161193847656e-08 * (abs(pk) or 1.0)
+            up, dn = list(popt), list(popt)
+            up[k], dn[k] = pk + h, pk - h
+            a = [f(x, *up) for x in xs]
+            b = [f(x, *popt) for x in xs]
+            c = [f(x, *dn) for x in xs]
+            num = math.sqrt(sum(((ai - 2 * bi + ci) * w) ** 2 for ai, bi, ci, w in zip(a, b, c, sw)))
+            den = math.sqrt(sum(((ai - ci) * w) ** 2 for ai, ci, w in zip(a, c, sw)))
+            if not den > 0:
+                return float("inf")
+            worst = max(worst, num / den)
+        return worst
+    except (OverflowError, ZeroDivisionError, ValueError, KeyError, TypeError):
+        return float("inf")
 
 
 def run_c06(ctx, cases, ref=False):
@@ -254,6 +297,15 @@ def run_c06(ctx, cases, ref=False):
         u = c.get("scale", [1.0, 1.0])
         dist["units:x*{:g}".format(u[0])] += 1
         dist["units:y*{:g}".format(u[1])] += 1
+        if c.get("offset") is not None:
+            dist["offset-data:|x|/span=1e{}..".format(int(math.floor(math.log10(c["ratio"]))))] += 1
+            dist["offset-data:" + ("position-is-a-parameter" if c["model"] in (
+                "gaussian", "custom:lpeak") else "user-model-in-(x-x0)")] += 1
+        if c["model"] in G.PRESET_POLY and c.get("parguess") is not None:
+            dist["poly-with-parguess:" + c.get("guess_kind", "list")] += 1
+            dist["poly-with-parguess:" + ("with-xerr" if c["xerr"] is not None else "no-xerr")] += 1
+            if not c.get("degrees_kw", True):
+                dist["poly-with-parguess:default-degree-without-degrees-keyword"] += 1
         if c["xrange"]:
             if c["xrange"][0] in c["x"]:
                 dist["xrange:low-bound-on-a-data-point"] += 1
@@ -317,7 +369,7 @@ def run_c06(ctx, cases, ref=False):
 def result_request(case, o):
     req = {"cmd": "fit.result", "params": [bits(v) for v in o["popt"]],
            "cov": [[bits(v) for v in row] for row in o["cov"]],
-           "xs": [bits(v) for v in case["xs"]], "pts": G.points(case)}
+           "xs": [bits(v) for v in G.eval_points(case)], "pts": G.points(case)}
     req.update(G.driver_model(case))
     return req
 
@@ -350,18 +402,26 @@ def judge_c07(case, o, r):
             return False
         return True
 
-    # fit_function(x): scalars, list, array
-    for form in ("fit", "fit_list", "fit_array"):
+    # fit_function(x): scalars, list, array -- and the same again after the history of the case
+    # (a returned value switched to Monte Carlo, the result drawn on a plot, ...)
+    forms = ["fit", "fit_list", "fit_array"] + (["fit_npscalar"] if "fit_npscalar" in o else [])
+    if "fit@after" in o:
+        forms += ["fit@after", "fit_list@after", "fit_array@after", "fit_npscalar@after"]
+    hist = " after the history {}".format(case.get("hist")) if case.get("hist") else ""
+    for form in forms:
         ok = True
-        for i, x in enumerate(case["xs"]):
+        hsig = ":after-history" if (form.endswith("@after") or (
+            case.get("hist") and case.get("hist_first"))) else ""
+        for i, x in enumerate(G.eval_points(case)):
             iv, ie = o[form][i]
             mv, me, mq = r["fit"][i]
-            ok = cmp("c07:fit-function-value:" + t,
-                     "fit_function({!r}) [{}] is not the model at the returned parameters".format(
-                         x, form), iv, mv, "fit_function = model at the returned parameters", x=x)
-            ok = ok and cmp("c07:fit-function-error:" + t,
-                            "uncertainty of fit_function({!r}) [{}] is not sqrt(g^T Cov g)".format(
-                                x, form), ie, me, "uncertainty band", x=x)
+            ok = cmp("c07:fit-function-value:" + t + hsig,
+                     "fit_function({!r}) [{}] is not the model at the returned parameters{}".format(
+                         x, form, hist if hsig else ""), iv, mv,
+                     "fit_function = model at the returned parameters", x=x)
+            ok = ok and cmp("c07:fit-function-error:" + t + hsig,
+                            "uncertainty of fit_function({!r}) [{}] is not sqrt(g^T Cov g){}".format(
+                                x, form, hist if hsig else ""), ie, me, "uncertainty band", x=x)
             if ok:
                 q, qb = fb(mq)
                 if math.isfinite(q) and qb <= 1e-6 * abs(q) + 1e-12 * yunit * yunit and not close(
@@ -374,10 +434,20 @@ def judge_c07(case, o, r):
                 break
         if not ok:
             break
-    if o["fit_list_type"] != "list" or o["fit_array_type"] != "ndarray":
+    if o["fit_list_type"] != "list" or o["fit_array_type"] != "ndarray" or o.get(
+            "fit_list_type@after", "list") != "list" or o.get("fit_array_type@after", "ndarray") != "ndarray":
         fails.append(fail("c07:fit-function-container:" + t, "fit_function of a list/array returned "
                           "{}/{}".format(o["fit_list_type"], o["fit_array_type"]), case,
                           clause="evaluation points as lists and arrays"))
+    # a history of evaluating / drawing / customising returned values moves nothing else either
+    if "chi2@after" in o:
+        for key, what in (("chi2", "chi-squared"), ("res", "the residuals"), ("perr", "the parameter "
+                          "uncertainties"), ("popt", "the parameter values"), ("regcorr", "the registered "
+                          "correlations"), ("str", "the printed result")):
+            if o[key + "@after"] != o[key]:
+                fails.append(fail("c07:moved-by-history:" + key + ":" + t, "{} changed over the history "
+                                  "{}".format(what, case.get("hist")), case, impl=o[key + "@after"],
+                                  expected=o[key], clause="one fit result"))
     # residuals
     if len(o["res"]) != len(case["x"]):
         fails.append(fail("c07:residual-count:" + t, "number of residuals", case,
@@ -463,6 +533,20 @@ def run_c07(ctx, cases, ref=False):
         u = c.get("scale", [1.0, 1.0])
         dist["units:x*{:g}".format(u[0])] += 1
         dist["units:y*{:g}".format(u[1])] += 1
+        if c.get("offset") is not None:
+            dist["offset-data"] += 1
+        if c["model"] in G.PRESET_POLY and c.get("parguess") is not None:
+            dist["poly-with-parguess"] += 1
+        if c.get("hist"):
+            for st in c["hist"]:
+                dist["history:" + st[0] + (":value-asked-as-" + st[2] if st[0] == "switch" else "")] += 1
+            for lg in o.get("hist_log", []):
+                if lg[0] == "plot":
+                    dist["history:plot:" + lg[1]] += 1
+            dist["history:fit_function-first-evaluated-after-it" if c.get("hist_first") else
+                 "history:fit_function-evaluated-before-and-after"] += 1
+        else:
+            dist["history:none"] += 1
         if "exception" in o and c["sy"] == "yzeros":
             # the library's first pass (sigma = sigma_y, some exactly 0) is not a least-squares
             # problem; when it does not get through the case says nothing
@@ -515,12 +599,16 @@ def closed_form_search(ctx, cases):
         if "exception" in o:
             continue
         tried += 1
-        f = G.ref_fn(c["model"])
+        f = G.ref_fn(c)
         p = o["popt"]
         yunit = max(abs(v) for v in c["y"]) or 1.0
         t = tag(c)
         try:
-            for x, (iv, _) in zip(c["xs"], o["fit"]):
+            pairs = [(x, iv, "") for x, (iv, _) in zip(G.eval_points(c), o["fit"])]
+            for key in ("fit@after", "fit_list@after", "fit_array@after"):
+                pairs += [(x, iv, " [{} the history {}]".format(key, c.get("hist")))
+                          for x, (iv, _) in zip(G.eval_points(c), o.get(key, []))]
+            for x, iv, when in pairs:
                 rv = f(x, *p)
                 scale = sum(abs(v) * abs(x) ** (len(p) - 1 - k) for k, v in enumerate(p)) \
                     if c["model"] in G.PRESET_POLY else abs(rv)
@@ -528,7 +616,7 @@ def closed_form_search(ctx, cases):
                     failures.append(fail(
                         "c07:fit-function-value:" + t,
                         "fit_function({!r}) = {!r}, the model at the returned parameters {} is "
-                        "{!r}".format(x, iv, p, rv), c, impl=iv, expected=rv, oracle="independent",
+                        "{!r}{}".format(x, iv, p, rv, when), c, impl=iv, expected=rv, oracle="independent",
                         kind="violation", clause="fit_function = model at the returned parameters",
                         x=x))
                     break
